@@ -12,8 +12,9 @@ namespace XpmVerif.C06
 open XpmVerif.Sched hiding Reachable flOK submitPre submitPost sumTo
 open XpmVerif.SchedFinal
 
-/-- obligation on the current source: the three scheduler repairs are present. -/
-theorem scheduler_flags : Gen.schedFlags = { readyGuarded := true, resubmitRegisters := true, abortRechecks := true } := by decide
+/-- obligation on the current source: the four scheduler repairs are present. -/
+theorem scheduler_flags : Gen.schedFlags =
+    { readyGuarded := true, resubmitRegisters := true, abortRechecks := true, abortReleases := true } := by decide
 
 /-- "reaches a … final state": the value `r` a job coroutine returns is DONE or ERROR, and it is the state the
     job record shows.  Needs `readyGuarded` only. -/
@@ -33,7 +34,7 @@ theorem final_stable {fl : Flags} (hg : fl.readyGuarded = true) {totals : List N
 /-- `final_stable` is false without `readyGuarded` (finding F3): job 1 has a success marker and depends on job 0;
     it returns DONE, and when job 0 finishes its record goes back to READY. -/
 theorem final_unstable_without_readyGuarded :
-    let fl : Flags := { readyGuarded := false, resubmitRegisters := true, abortRechecks := true }
+    let fl : Flags := { readyGuarded := false, resubmitRegisters := true, abortRechecks := true, abortReleases := true }
     let evs : List Ev := [.submit 10 [] 0 false, .submit 11 [.job 0] 0 true, .step, .step, .deliver 1, .step,
       .deliver 0, .step, .deliver 0, .step, .deliver 0, .step, .deliver 0, .step, .step]
     (((evs.take 6).foldl (St.apply fl) (St.init [])).jobs 1).pc = .finished .done ∧
@@ -145,7 +146,7 @@ theorem waiter_returns_iff {fl : Flags} (hg : fl.readyGuarded = true) (hf : fl.r
     a failed job is re-submitted; `wait()` raises while the re-submitted job is still in `doneHandler`, and
     `unfinished` ends at −1. -/
 theorem wait_returns_early_without_resubmitRegisters :
-    let fl : Flags := { readyGuarded := true, resubmitRegisters := false, abortRechecks := true }
+    let fl : Flags := { readyGuarded := true, resubmitRegisters := false, abortRechecks := true, abortReleases := true }
     let a : Ev := .submit 0 [] 2 false
     let b : Ev := .submit 0 [] 1 false
     let evs : List Ev := [a, .step, .deliver 0, .step, .deliver 0, .step, .deliver 0, b, .step, .deliver 1, .step,
@@ -188,11 +189,51 @@ theorem waiting_has_cause {fl : Flags} (hg : fl.readyGuarded = true) (ha : fl.ab
   · exact absurd hcur hnf
 
 /-- invariant G: a job holds dependency locks only between a start and the lock-release segment that follows
-    (so a holder always has a helper thread or its callback pending).  Needs `readyGuarded`, `abortRechecks`. -/
+    (so a holder always has a helper thread or its callback pending); an aborted start holds something only on a tree
+    without the `abortReleases` repair.  Needs `readyGuarded`, `abortRechecks`; either value of `abortReleases`. -/
 theorem holder_has_thread {fl : Flags} (hg : fl.readyGuarded = true) (ha : fl.abortRechecks = true)
     {totals : List Nat} {s : St} (h : Reachable fl totals s) (j : Nat) (hh : (s.jobs j).held ≠ []) :
-    (s.jobs j).pc = .lockExitAbort ∨ (s.jobs j).pc = .lockExitRun ∨ (s.jobs j).pc = .codeWait :=
+    (fl.abortReleases = false ∧ (s.jobs j).pc = .lockExitAbort) ∨ (s.jobs j).pc = .lockExitRun ∨
+    (s.jobs j).pc = .codeWait :=
   ((reachable_invE hg ha h).q j).2 hh
+
+/-- invariant G, sharpened by the `abortReleases` repair: only a launched job holds locks across a suspension. -/
+theorem holder_is_launched {fl : Flags} (hg : fl.readyGuarded = true) (ha : fl.abortRechecks = true)
+    (hr : fl.abortReleases = true) {totals : List Nat} {s : St} (h : Reachable fl totals s) (j : Nat)
+    (hh : (s.jobs j).held ≠ []) : (s.jobs j).pc = .lockExitRun ∨ (s.jobs j).pc = .codeWait := by
+  rcases holder_has_thread hg ha h j hh with ⟨e, _⟩ | e
+  · rw [hr] at e; cases e
+  · exact e
+
+/-- key lemma towards termination (`abort_changes_nothing`): with `abortReleases`, a start that fails on its `d`-th lock
+    leaves `avail` and every job's `held` exactly as they were, and moves the job to `lockExitAbort`.  (Needs no
+    reachability; `held = []` at `lockEnter` is `holder_has_thread`.) -/
+theorem aborted_start_changes_no_token_state (fl : Flags) (hr : fl.abortReleases = true) (s : St) (j d : Nat)
+    (hpc : (s.jobs j).pc = .lockEnter) (hh : (s.jobs j).held = [])
+    (hfail : (s.acquireAll j (s.jobs j).deps.length 0).2 = some d) :
+    (s.resume fl j).avail = s.avail ∧ (∀ i, ((s.resume fl j).jobs i).held = (s.jobs i).held) ∧
+    ((s.resume fl j).jobs j).pc = .lockExitAbort :=
+  abort_changes_nothing fl hr s j d hpc hh hfail
+
+/-- second key lemma towards termination: with `abortReleases`, if no other dependency of the job asks for the token it
+    failed on, an aborted start records the failing dependency as WAIT (so `unsatisfied > 0` by `counter_sound` and
+    the job goes back to sleep; it retries only after a later check finds the token available). -/
+theorem aborted_start_records_wait (fl : Flags) (hr : fl.abortReleases = true) (s : St) (j e : Nat)
+    (hpc : (s.jobs j).pc = .lockEnter) (hh : (s.jobs j).held = [])
+    (hfail : (s.acquireAll j (s.jobs j).deps.length 0).2 = some e)
+    (hnodup : ∀ i t c c', i ≠ e → (depAt (s.jobs j) e).origin = .tok t c → (depAt (s.jobs j) i).origin ≠ .tok t c') :
+    e < (s.jobs j).deps.length ∧ (depAt ((s.resume fl j).jobs j) e).cur = .wait :=
+  abort_records_wait fl hr s j e hpc hh hfail hnodup
+
+/-- the hypothesis `hnodup` above is needed, and "every `step`/`deliver` sequence is bounded" is false even with all
+    four repairs when one job asks twice for the same token: one job, token of 1, dependencies [1 unit, 1 unit] (each
+    fits, the sum does not).  After `[submit, step]` the 6-event cycle `deliver 0, step, deliver 0, step, step, step`
+    returns to the same snapshot: the job takes one unit, fails on the second, gives the first back, finds both
+    dependencies satisfiable again and retries at once — a busy loop, also on the real scheduler (replayed, 4 turns). -/
+theorem doubled_token_request_spins :
+    snap (selfSpinState 1) = snap (selfSpinState 0) ∧ snap (selfSpinState 2) = snap (selfSpinState 0) ∧
+    ((selfSpinState 0).jobs 0).pc = .lockEnter ∧ ((selfSpinState 0).jobs 0).launches = 0 :=
+  self_spin_snap
 
 /-- invariant C (`stale_wait_has_notification`, tokens): a registered token dependency recorded as WAIT either cannot be
     satisfied now, or a check of it is queued.  Needs `readyGuarded`, `abortRechecks`. -/
@@ -244,9 +285,9 @@ theorem quiescent_waiter_done {fl : Flags} (hg : fl.readyGuarded = true) (hf : f
 /-- deadlock freedom (`quiescent_all_final`): in a reachable state with an empty callback queue and no pending helper
     thread, every scheduled job has returned, `unfinished = 0`, every token is full, nobody holds a lock, and
     `experiment.wait()` (if called) has completed — provided no job asks for more units of a token than the token has
-    (`TokFit`; such a job waits forever in the real scheduler too).  Needs all three flags.  (The token part uses the
-    capacity invariant of C08, `Proofs/SchedCap`.)  Not covered: termination — and it is FALSE, see
-    `aborted_starts_livelock_witness`. -/
+    (`TokFit`; such a job waits forever in the real scheduler too).  Needs the first three flags.  (The token part uses the
+    capacity invariant of C08, `Proofs/SchedCap`.)  Not covered: termination — false without the fourth repair `abortReleases`, see
+    `aborted_starts_livelock_witness`; holds for either value of `abortReleases`. -/
 theorem quiescent_all_final {fl : Flags} (hg : fl.readyGuarded = true) (hf : fl.resubmitRegisters = true)
     (ha : fl.abortRechecks = true) {totals : List Nat} {s : St} (h : Reachable fl totals s)
     (hr : s.ready = []) (ht : s.threads = []) (hfit : TokFit s) :
@@ -272,7 +313,7 @@ theorem no_job_waits_at_quiescence {fl : Flags} (hg : fl.readyGuarded = true) (h
 /-- `quiescent_all_final` is false without `abortRechecks` (finding F5): two jobs, one token of 1; after an aborted
     start the second job sleeps forever although the token is free. -/
 theorem quiescent_hang_without_abortRechecks :
-    let fl : Flags := { readyGuarded := true, resubmitRegisters := true, abortRechecks := false }
+    let fl : Flags := { readyGuarded := true, resubmitRegisters := true, abortRechecks := false, abortReleases := true }
     let a : Ev := .submit 0 [.tok 0 1] 0 false
     let b : Ev := .submit 1 [.tok 0 1] 0 false
     let evs : List Ev := [a, b, .deliver 0, .step, .step, .deliver 1, .deliver 0, .step, .step, .deliver 0, .step,
@@ -281,27 +322,45 @@ theorem quiescent_hang_without_abortRechecks :
     (s.ready = [] ∧ s.threads = [] ∧ (s.jobs 1).pc = .evtWait ∧ (s.jobs 1).sleeping = true ∧
      (s.jobs 1).unsat = 0 ∧ s.avail 0 = 1 ∧ s.unfinished = 1 ∧ s.waiter = .sleeping) := by decide
 
-/-- `every_fair_run_finite` is FALSE, with all three repairs present (new finding, livelock of aborted starts):
-    tokens t0, t1 of one unit each; job C takes t1 and finishes; A takes [t0, t1], B takes [t1, t0].  After the prefix
+/-- `every_fair_run_finite` is FALSE without the `abortReleases` repair (finding F32, livelock of aborted starts); flags
+    `flNoRelease = { readyGuarded := true, resubmitRegisters := true, abortRechecks := true, abortReleases := false }`.
+    Tokens t0, t1 of one unit each; job C takes t1 and finishes; A takes [t0, t1], B takes [t1, t0].  After the prefix
     `livelockPrefix` (16 events) A is in its aborted-start segment still holding t0 and B is about to start; the cycle
     `livelockCycle` (13 `step`/`deliver` events, in which every queued callback runs and every helper thread is
     delivered — a fair schedule) brings the scheduler back to exactly the same snapshot (`snap`: all job records,
-    tokens, dependents, both queues, counters, waiter), with A and B exchanged twice: each takes its first token,
-    fails on the second and releases.  Checked here for 1, 2 and 3 turns of the cycle; nobody is ever launched.
-    The state is reachable and satisfies `TokFit`.  (Replayed on the real scheduler with the harness engine: 84
-    events, no difference with the model, identical observation after each of 5 turns.) -/
+    tokens, dependents, both queues, counters, waiter): each of A, B takes its first token, fails on the second and
+    releases.  Checked here for 1, 2 and 3 turns of the cycle; nobody is ever launched.  The state is reachable and
+    satisfies `TokFit`.  (Replayed on the real scheduler before the fix: identical observation after every turn.) -/
 theorem aborted_starts_livelock_witness :
-    Reachable flOK [1, 1] (livelockState 0) ∧ TokFit (livelockState 0) ∧
+    flNoRelease = { readyGuarded := true, resubmitRegisters := true, abortRechecks := true, abortReleases := false } ∧
+    Reachable flNoRelease [1, 1] (livelockState 0) ∧ TokFit (livelockState 0) ∧
     snap (livelockState 1) = snap (livelockState 0) ∧ snap (livelockState 2) = snap (livelockState 0) ∧
     snap (livelockState 3) = snap (livelockState 0) ∧
     ((livelockState 0).jobs 0).pc = .finished .done ∧
     ((livelockState 0).jobs 1).pc = .lockExitAbort ∧ ((livelockState 0).jobs 2).pc = .lockEnter ∧
     ((livelockState 0).jobs 1).launches = 0 ∧ ((livelockState 0).jobs 2).launches = 0 ∧
     (livelockState 0).threads = [] ∧ (livelockState 0).ready = [.resume 2, .resume 1] :=
-  ⟨reachable_runEvs _ (by decide), tokFit_runEvs flOK [1, 1] _ (by decide), livelock_cycle_snap.1,
+  ⟨rfl, reachable_runEvs _ (by decide), tokFit_runEvs flNoRelease [1, 1] _ (by decide), livelock_cycle_snap.1,
    livelock_cycle_snap.2.1, livelock_cycle_snap.2.2, livelock_cycle_facts.1, livelock_cycle_facts.2.1,
    livelock_cycle_facts.2.2.1, livelock_cycle_facts.2.2.2.1, livelock_cycle_facts.2.2.2.2.1,
    livelock_cycle_facts.2.2.2.2.2.1, livelock_cycle_facts.2.2.2.2.2.2.1⟩
+
+/-- positive counterpart, all four repairs (`flOK`): the same submissions, prefix and cycle do not loop — after one turn
+    B has been launched; after three turns and the nine events `livelockFixedTail` the run is quiescent, all three jobs
+    returned DONE, A and B ran exactly once, both tokens are full. -/
+theorem aborted_starts_no_livelock_with_abortReleases :
+    flOK = { readyGuarded := true, resubmitRegisters := true, abortRechecks := true, abortReleases := true } ∧
+    ((livelockFixedState 1 []).jobs 2).launches = 1 ∧
+    (livelockFixedState 3 livelockFixedTail).n = 3 ∧
+    ((livelockFixedState 3 livelockFixedTail).jobs 0).pc = .finished .done ∧
+    ((livelockFixedState 3 livelockFixedTail).jobs 1).pc = .finished .done ∧
+    ((livelockFixedState 3 livelockFixedTail).jobs 2).pc = .finished .done ∧
+    ((livelockFixedState 3 livelockFixedTail).jobs 1).launches = 1 ∧
+    ((livelockFixedState 3 livelockFixedTail).jobs 2).launches = 1 ∧
+    (livelockFixedState 3 livelockFixedTail).ready = [] ∧ (livelockFixedState 3 livelockFixedTail).threads = [] ∧
+    (livelockFixedState 3 livelockFixedTail).avail 0 = 1 ∧ (livelockFixedState 3 livelockFixedTail).avail 1 = 1 ∧
+    (livelockFixedState 3 livelockFixedTail).unfinished = 0 :=
+  ⟨rfl, livelock_fixed_facts⟩
 
 /-! Hypotheses are satisfiable: a concrete reachable state (flags all true) with a job that returned DONE after one
     launch, one that returned ERROR because its dependency failed (never launched), and a waiter that raised. -/
